@@ -1058,6 +1058,23 @@ type c14State struct {
 	abandoned atomic.Bool  // the watcher gave up: the scenario goroutine must not go on
 	step      atomic.Int64 // bumped before every library call that may block
 	ds        *c14DS
+
+	// block stops: the consumer had to call Next to move the walker on (fallback) and the
+	// walker then entered the blocking lookup while the consumer is inside that Next — a state
+	// the consumer cannot stop from. The watcher then releases the lookup (rescue).
+	fallback atomic.Bool
+	rescued  atomic.Bool
+	relOnce  sync.Once
+}
+
+func (st *c14State) releaseLookup() { st.relOnce.Do(func() { close(st.ds.release) }) }
+
+// rescue is called by the watcher on every poll.
+func (st *c14State) rescue() {
+	if st.fallback.Load() && st.ds.blockedNow.Load() {
+		st.rescued.Store(true)
+		st.releaseLookup()
+	}
 }
 
 func (st *c14State) progress() int64 { return st.step.Load() + st.ds.calls.Load() }
@@ -1069,6 +1086,35 @@ func (st *c14State) call(f func()) {
 	if st.abandoned.Load() {
 		runtime.Goexit()
 	}
+}
+
+// walkerArrives reports whether the walker sits in the blocking lookup. It yields while a
+// goroutine with annotate frames is still able to run; it returns false as soon as there is
+// none, or all of them are blocked (waiting for the consumer).
+func (x *c14X) walkerArrives(ds *c14DS) bool {
+	for i := 0; i < 200; i++ {
+		if ds.blockedNow.Load() {
+			return true
+		}
+		runtime.Gosched()
+	}
+	for polls := 0; polls < 300; polls++ {
+		if ds.blockedNow.Load() {
+			return true
+		}
+		canRun := false
+		for _, b := range mon.Goroutines(c14Pkg) {
+			if !x.isLeaked(c14GoroutineID(b)) && !mon.Blocked(mon.GoroutineState(b)) {
+				canRun = true
+			}
+		}
+		if !canRun {
+			return ds.blockedNow.Load()
+		}
+		runtime.Gosched()
+		time.Sleep(20 * time.Microsecond)
+	}
+	return ds.blockedNow.Load()
 }
 
 // goroutinesGone decides "no goroutine with annotate frames is left". Fast path: the
@@ -1128,9 +1174,9 @@ func (x *c14X) run(s *c14Scn) c14Out {
 		ds.inner = x.libFor(g, s.lib).ds
 	}
 	ds.release = make(chan struct{})
-	defer close(ds.release) // whatever happens, a blocked lookup does not outlive the scenario
 	ds.probe = s.probe
 	st := &c14State{ds: ds}
+	defer st.releaseLookup() // whatever happens, a blocked lookup does not outlive the scenario
 	var out c14Out
 	go func() {
 		x.body(s, st, &out, parent, cancel)
@@ -1138,6 +1184,7 @@ func (x *c14X) run(s *c14Scn) c14Out {
 	}()
 	for spins := 0; !st.done.Load(); spins++ {
 		runtime.Gosched()
+		st.rescue()
 		if spins < 3000 {
 			continue
 		}
@@ -1187,6 +1234,7 @@ func (x *c14X) stuck(st *c14State) (string, []string) {
 			d = 10
 		}
 		time.Sleep(time.Duration(d) * 200 * time.Microsecond)
+		st.rescue()
 		if p := st.progress(); p != last || st.done.Load() {
 			stable, last = 0, p // it moves (a loaded machine, a sleeping datasource): no dump needed
 			continue
@@ -1300,15 +1348,26 @@ func (x *c14X) body(s *c14Scn, st *c14State, out *c14Out, parent context.Context
 		// the consumer walks away without another Next: the walker must end on its own
 		x.goroutinesGone(base, out, "leak-after-cancel", "after context cancellation (no further Next, no Close)")
 	case "blockclose", "blockcancel":
-		// wait (bounded, yielding) until the walker sits in the blocking lookup; it gets there
-		// without another Next because the ids it emits before that lookup have been consumed
-		for i := 0; i < 1500 && !ds.blockedNow.Load(); i++ {
-			runtime.Gosched()
-			if i > 300 {
-				time.Sleep(20 * time.Microsecond)
+		// The walker normally gets into the blocking lookup without another Next, because the
+		// ids it emits before that lookup have been consumed. Nothing is assumed about when the
+		// library starts its goroutine or how far it runs ahead: the consumer waits only while
+		// some library goroutine can still run on its own (goroutine states, no clock); when
+		// none can (not started yet, waiting for the consumer) it makes the next Next call it
+		// was going to make anyway. Should the walker enter the blocking lookup during such a
+		// Next — a state the consumer cannot stop from — the watcher releases the lookup and the
+		// scenario goes on as an ordinary Close / cancel point, counted as "missed".
+		for !st.rescued.Load() && !out.ended && len(out.emitted) <= limit {
+			if x.walkerArrives(ds) {
+				break
+			}
+			st.fallback.Store(true)
+			ok := next()
+			st.fallback.Store(false)
+			if !ok {
+				break
 			}
 		}
-		out.stopInDS = ds.blockedNow.Load()
+		out.stopInDS = ds.blockedNow.Load() && !st.rescued.Load()
 		out.blockMiss = !out.stopInDS
 		if s.stop == "blockclose" {
 			doClose() // must make the context handed to the datasource done, or it waits for ever
